@@ -168,6 +168,11 @@ def regen_tables():
         if f.endswith(".v"):
             write_if_changed(os.path.join(priv, "gen", f), open(os.path.join(probe, f)).read())
     COQ = priv
+    # ... and the executable models extracted from it are private too
+    global MODEL_DIR, MODEL
+    MODEL_DIR = os.path.join(BUILD, "model")
+    MODEL = os.path.join(MODEL_DIR, "rsmodel_run")
+    os.makedirs(MODEL_DIR, exist_ok=True)
     log("self-test: regenerated tables differ from the shared ones; Coq project rebuilt privately in " + priv)
 
 
